@@ -353,7 +353,7 @@ def generators(ctx):
     def truth(e, s, tr):
         x = e['_X']
         if isinstance(x, ast.Name) and x.id == p:
-            return s['given']
+            return bool(s['given'])
         return None
 
     def store(e, s, tr):
@@ -364,11 +364,17 @@ def generators(ctx):
             v = v.body if it_.cond(v.test, s, tr) else v.orelse
         tr.append(('store', v))
         return True
-    it_ = _ai.Interp(init, [('_X is None', lambda e, s, tr: (None if truth(e, s, tr) is None else not truth(e, s, tr))), ('_X is not None', truth),
+    def isinst(e, s, tr):
+        x = e['_X']
+        if isinstance(x, ast.Name) and x.id == p:
+            # only an object that derives from the named class passes; None and duck-typed generators do not
+            return s['given'] == 'idgen'
+        return None
+    it_ = _ai.Interp(init, [('isinstance(_X, _T)', isinst), ('_X is None', lambda e, s, tr: (None if truth(e, s, tr) is None else not truth(e, s, tr))), ('_X is not None', truth),
                            ('not _X', lambda e, s, tr: (None if truth(e, s, tr) is None else not truth(e, s, tr))), ('_X', truth)],
                      [('self.id_generator = _V', store)], ignore=['self._A = _V'])
     it_.pure_calls = {'UUIDGenerator', 'dict', 'list'}
-    for given in (False, True):
+    for given in (False, 'idgen', 'other'):
         out_, tr_ = it_.run({'given': given})
         vals = [t[1] for t in tr_ if isinstance(t, tuple) and t[0] == 'store']
         v = _ai.strip0(vals[-1]) if vals else None
@@ -379,5 +385,7 @@ def generators(ctx):
     r.check(fresh and defaults_ok, 'MetaModel() creates its own UUIDGenerator when none is given', init,
             construct='xtuml.meta:MetaModel.__init__', key='own-generator',
             msg='MetaModel.__init__ does not create a fresh generator per metamodel (shared default?)')
-    r.check(isinstance(stored[True], ast.Name) and stored[True].id == p, 'a given generator is stored on the metamodel', init,
-            construct='xtuml.meta:MetaModel.__init__', key='store-generator', msg='id_generator is not stored on the metamodel')
+    for given, what in (('idgen', 'an IdGenerator'), ('other', 'any other generator object (iterator protocol)')):
+        r.check(isinstance(stored[given], ast.Name) and stored[given].id == p, 'a given generator (%s) is stored on the metamodel' % what, init,
+                construct='xtuml.meta:MetaModel.__init__', key='store-generator',
+                msg='id_generator is not stored on the metamodel when %s is given (the code stores %s)' % (what, src(stored[given]) if stored[given] is not None else None))
